@@ -353,6 +353,50 @@ Proof.
   destruct tr; repeat (apply Forall_cons; [vm_compute; reflexivity|]); apply Forall_nil.
 Qed.
 
+(* ---------------------------------------------------------------- concrete instantiations
+   The statements above are parametric in the environment `asm`.  Here the same table is checked
+   on CONCRETE argument types: every entry, instantiated with the pairs (X, X), (X, f64), (f64, X) of representative
+   element / source types X (first component for the even, second for the odd parameters), evaluated with NO assumptions,
+   gives exactly what the table says when `asm tr n` is read as "the n-th argument implements tr". *)
+Definition f64 : ty := TPrim "f64".
+Definition representatives : list ty := [
+  f64;                                             (* Send + Sync *)
+  TCell f64;                                       (* Send, not Sync *)
+  TRc f64;                                         (* neither *)
+  TRef LStatic false f64;                          (* &f64 *)
+  TRef LStatic false (TCell f64);                  (* &Cell<f64>: not Send (Cell is not Sync), not Sync *)
+  TRef LStatic true (TCell f64);                   (* &mut Cell<f64>: Send, not Sync *)
+  TApp "tensors::Tensor" [] [TCell f64];
+  TApp WL [] [f64];                                (* a tape as element: Send, not Sync *)
+  TApp REC [LStatic] [f64];                        (* a record as element: neither *)
+  TDyn true false;                                 (* dyn Trait + Send *)
+  TTuple [f64; TArc (TMutex (TCell f64))] ].       (* Arc<Mutex<Cell>>: Send + Sync *)
+
+Definition no_asm : trait -> nat -> bool := fun _ _ => false.
+
+Definition args_of (x y : ty) (k : nat) : list ty :=
+  map (fun i => if Nat.even i then x else y) (seq 0 k).
+
+Definition instance_ok (e : expectation) (x y : ty) : bool :=
+  match lookup decls (ename e) with
+  | None => false
+  | Some d =>
+      let args := args_of x y (dtys d) in
+      let t := TApp (ename e) (map (fun _ => LStatic) (seq 0 (dlts d))) args in
+      let env := fun tr n => holds decls no_asm tr (nth n args (TOpaque "none")) in
+      Bool.eqb (holds decls no_asm Send t) (meets env (esend e)) &&
+      Bool.eqb (holds decls no_asm Sync t) (meets env (esync e))
+  end.
+
+(* (X, X) for every representative, and X against f64 in both positions *)
+Definition representative_pairs : list (ty * ty) :=
+  map (fun x => (x, x)) representatives ++ map (fun x => (x, f64)) (tl representatives)
+  ++ map (fun x => (f64, x)) (tl representatives).
+
+Lemma concrete_instantiations :
+  forallb (fun e => forallb (fun p => instance_ok e (fst p) (snd p)) representative_pairs) expectations = true.
+Proof. vm_compute. reflexivity. Qed.
+
 (* ---------------------------------------------------------------- mutants (the proofs above
    would break): each realistic unsound edit flips the evaluator *)
 
